@@ -99,6 +99,15 @@ def cases(tier, inst):
                   ("or", ("and", ("t", val), ("cmp", "eq", xq_, L(1))), ("cmp", "eq", val, zero))):
             yield ("roles", t, (X,))
             yield ("roles", t, (X, val))
+        # the expression is false in its condition position, ANOTHER side of the disjunction makes the row, and it is selected
+        for t in (("or", ("t", val), ("cmp", "eq", xq_, L(0))), ("or", ("cmp", "eq", xq_, L(0)), ("t", val)),
+                  ("or", ("and", ("t", val), ("cmp", "eq", xq_, L(1))), ("cmp", "eq", xq_, L(0))),
+                  ("not", ("and", ("t", val), ("cmp", "eq", xq_, L(1))))):
+            if t[0] == "not":
+                continue     # (a negation inverts the shared expression in place: out of the vocabulary)
+            yield ("roles", t, (X, val))
+            yield ("roles", t, (val, X))
+            yield ("rolesent", t, val)
 
     for sel in SELS:
         yield ("sel", sel, None)
@@ -177,6 +186,8 @@ def query_of(case):
         return ("Q", "an", "setof", (X, Y), (case[1],), (VX, VY)), "query"
     if fam == "roles":
         return ("Q", "an", "setof", tuple(case[2]), (case[1],), (VX,)), "query"
+    if fam == "rolesent":           # the shared expression alone is selected, through entity(...)
+        return ("Q", "an", "entity", case[2], (case[1],), (VX,)), "query"
     if fam in ("sel", "flat"):
         return ("Q", "an", "setof", tuple(case[1]), (case[2],) if case[2] else (), (VX,)), "query"
     if fam == "esel":
@@ -236,13 +247,13 @@ def run_case(case, inst):
             got = eval_rows(q, world, inst, predeclare=universals)
             exp = [tuple(ref.value(s, env) for s in q[3]) for env in ref.solutions(q)]
             total = len(world["FA"])
-        elif fam == "roles":
+        elif fam in ("roles", "rolesent"):
             try:
                 obj, b = Q.build(q, world, inst, share_terms="all")
-                got = [tuple(r[s] for s in b.sel[q]) for r in obj.evaluate()]
+                got = [tuple(r[s] for s in b.sel[q]) if fam == "roles" else (r,) for r in obj.evaluate()]
             except Exception as e:
                 got = exc_obs(e)
-            exp = [tuple(ref.value(s, env) for s in q[3]) for env in ref.solutions(q)]
+            exp = [tuple(ref.value(s, env) for s in (q[3] if fam == "roles" else (q[3],))) for env in ref.solutions(q)]
             total = len(world["FA"])
         else:
             got = eval_rows(q, world, inst)
@@ -252,7 +263,7 @@ def run_case(case, inst):
         return got, exp, total
 
     got, exp, total = run_isolated(body)
-    d = diff_rows(got, exp, count=fam in ("cond1", "cond2", "field", "fieldm", "ctor", "flat", "esel", "roles", "fa"))
+    d = diff_rows(got, exp, count=fam in ("cond1", "cond2", "field", "fieldm", "ctor", "flat", "esel", "roles", "rolesent", "fa"))
     res = {"ok": d is None, "nontrivial": len(exp) > 0 and (total is None or len(exp) < total) if fam != "cond1"
            else 0 < len(exp) < len(FA), "transitions": 1 + (0 if is_exc(got) else len(got)),
            "tags": [f"family={fam}"], "outcome": f"{fam}:{len(exp)}"}
